@@ -9,7 +9,8 @@ Local Open Scope N_scope.
    13, its MAC, the MAC of the clear certificate block) is accepted, every boot section MAC verifies, counters come from
    file offsets -- and sees, section for section and command for command, what was given; versions, build number,
    timestamp and signedness read back are the values supplied; the signature obligation is the given signature over
-   EVERYTHING before it (file = signed range ++ signature), nothing for unsigned images.
+   EVERYTHING before it (file = signed range ++ signature), nothing for unsigned images; the header's first_boot_section_id is the first
+   section's id and the ROM, which starts at the section carrying that id, starts with the first one (boot index 0).
    Parametric in the block cipher; rom20_build_aes is the concrete instance. *)
 Theorem rom20_build :
   forall (E D : list N -> list N -> list N),
@@ -18,6 +19,7 @@ Theorem rom20_build :
   exists r, rom20 E D (y_sigsize y) (y_kek y) file = Some r /\
     t_secs r = spec_of (y_secs y) /\ t_signed r = y_signed y /\ t_pv r = y_pv y /\ t_cv r = y_cv y /\
     t_build r = y_build y /\ t_ts r = y_ts y /\ t_sig r = sigpart y /\
-    file = firstn (t_signed_len r) file ++ sigpart y /\ length (firstn (t_signed_len r) file) = t_signed_len r.
+    file = firstn (t_signed_len r) file ++ sigpart y /\ length (firstn (t_signed_len r) file) = t_signed_len r /\
+    t_boot_index r = 0%nat /\ hdr_first_boot_section_id file = option_map s_uid (hd_error (y_secs y)).
 Proof. exact rom20_build_thm. Qed.
 Print Assumptions rom20_build.
